@@ -141,6 +141,8 @@ MUTANTS: Dict[str, List[M]] = {
         ("return value dropped for coroutines", "_cli.py", '        return __import__("asyncio").run(component(**cfg))', '        __import__("asyncio").run(component(**cfg))\n        return None', "C12."),
     ],
     "C14": [
+        ("stale dict_kwargs kept on the command line path", "_typehints.py", '                    prev_val.pop("dict_kwargs", None)  # Namespace.update merges by leaf', '                    pass  # Namespace.update merges by leaf', "C14.e"),
+        ("stale dict_kwargs kept on the merge path", "_typehints.py", '        del_kwargs = prev_val.pop("dict_kwargs")', '        del_kwargs = prev_val.get("dict_kwargs")', "C14.e"),
         ("callable return type accepted without subclass test", "_typehints.py", "                    if is_subclass_or_implements_protocol(return_type, typehint):\n                        not_subclass = False", "                    if return_type is not None:\n                        not_subclass = False", "C14.a"),
         ("class_path not normalised", "_typehints.py", '            val["class_path"] = get_import_path(val_class)\n            val = adapt_class_type(val, serialize, instantiate_classes, sub_add_kwargs, prev_val=prev_val)', "            val = adapt_class_type(val, serialize, instantiate_classes, sub_add_kwargs, prev_val=prev_val)", "C14.b"),
         ("nested classes not built first", "_typehints.py", "    if instantiate_classes:\n        init_args = parser.instantiate_classes(init_args)", "    if instantiate_classes:\n        if prev_val is None:\n            init_args = parser.instantiate_classes(init_args)", "C14.c"),
